@@ -41,17 +41,11 @@ Proof. vm_compute. discriminate. Qed.
 
 (* the guard of the repaired kfRepeat implies the precondition of strings.Repeat *)
 Lemma repeat_guard s count :
-  (count <? 0) || ((0 <? blen s) && (repeat_cap / blen s <? count)) = false ->
+  (count <? 0) || (repeat_cap <? count) || (repeat_cap <? blen s * count) = false ->
   0 <= count /\ blen s * count <= repeat_cap.
 Proof.
-  intros H. apply orb_false_iff in H as [H1 H2]. apply Z.ltb_ge in H1. split; [assumption|].
-  pose proof (blen_nonneg s).
-  destruct (0 <? blen s) eqn:E; cbn in H2.
-  - apply Z.ltb_lt in E. apply Z.ltb_ge in H2.
-    transitivity (blen s * (repeat_cap / blen s)).
-    + apply Z.mul_le_mono_nonneg_l; lia.
-    + apply Z.mul_div_le. lia.
-  - apply Z.ltb_ge in E. replace (blen s) with 0 by lia. vm_compute. discriminate.
+  intros H. apply orb_false_iff in H as [H H3]. apply orb_false_iff in H as [H1 H2].
+  apply Z.ltb_ge in H1, H2, H3. split; assumption.
 Qed.
 
 Theorem repeat_total args : f_repeat true args <> Panic.
@@ -60,7 +54,7 @@ Proof.
   destruct (a_const c); [|discriminate].
   destruct (atoi (a_val n)) as [count|]; [|discriminate].
   cbn [andb].
-  destruct ((count <? 0) || ((0 <? blen (a_val c)) && (repeat_cap / blen (a_val c) <? count))) eqn:G; [discriminate|].
+  destruct ((count <? 0) || (repeat_cap <? count) || (repeat_cap <? blen (a_val c) * count)) eqn:G; [discriminate|].
   apply repeat_guard in G as [G1 G2]. apply go_repeat_ok; [assumption|]. pose proof cap_le_max. lia.
 Qed.
 
@@ -76,7 +70,7 @@ Proof.
   destruct (a_const c); [|intros H; inversion H; vm_compute; discriminate].
   destruct (atoi (a_val n)) as [count|]; [|intros H; inversion H; vm_compute; discriminate].
   cbn [andb].
-  destruct ((count <? 0) || ((0 <? blen (a_val c)) && (repeat_cap / blen (a_val c) <? count))) eqn:G;
+  destruct ((count <? 0) || (repeat_cap <? count) || (repeat_cap <? blen (a_val c) * count)) eqn:G;
     [intros H; inversion H; vm_compute; discriminate|].
   apply repeat_guard in G as [G1 G2]. intros H. apply go_repeat_length in H; lia.
 Qed.
